@@ -14,7 +14,7 @@ import (
 // later operation on that object forever (no "non-OK status within bounded time").
 
 func init() {
-	register(&Rule{ID: "R09.8", Props: []string{"C09", "C19", "C18", "C04"}, Floor: 16,
+	register(&Rule{ID: "R09.8", Props: []string{"C09", "C19", "C18", "C04", "C11"}, Floor: 16,
 		Doc: "lock pairing: every Lock/RLock in mpx and rpc is matched by an Unlock/RUnlock (explicit or deferred) on every path to every return of the acquiring function",
 		Run: runR09_8})
 }
